@@ -8,6 +8,7 @@ CONSTANTS
   NRandom = 3000
   BuildMax = 0
   BuildIds = {1, 2, 3}
+  WithFamilies = TRUE
   StaticInit = TRUE
 INIT Init
 NEXT Next
